@@ -343,6 +343,7 @@ func jobQue(j *jobCtx) {
 		scaleQue(j, k)
 		churnQue(j, k)
 		if k == "circularbuffer" {
+			simRing(j) // behaviours generated by TLC's simulator from the ring model (capacities 7, 12), replayed here
 			ringGrowth(j)
 			ringZeroSize(j)
 		}
@@ -445,6 +446,9 @@ func jobHeap(j *jobCtx) {
 		bigHeap(j, k)
 		scaleHeap(j, k)
 		churnHeap(j, k)
+		if k == "binaryheap" {
+			simHeap(j) // behaviours generated by TLC's simulator from the heap model (24 items, bulk pushes), replayed here
+		}
 		dfltHeaps(j, k) // New(): built-in comparator, float elements incl. NaN, strings
 		for _, cmp := range []string{"prio", "maxpriox", "prioid"} {
 			u := &heapUniverse{kind: k, cmp: cmp, elems: []int{11, 12, 21, 22, 31}, maxLen: 3}
